@@ -225,8 +225,8 @@ type subject struct {
 	newView func() submatview.View
 	request func(token string) func(index uint64) *pbsubscribe.SubscribeRequest
 	direct  func(s *state.Store, authz acl.Authorizer) (uint64, string) // index and canonical rendering of the equivalent direct query (authz != nil: filtered like the endpoint does)
-	render  func(v any) string                    // canonical rendering of view.Result(..)
-	aux     func(s *state.Store) string           // optional: extra facts recorded per commit, used only to NAME the cause of a mismatch
+	render  func(v any) string                                          // canonical rendering of view.Result(..)
+	aux     func(s *state.Store) string                                 // optional: extra facts recorded per commit, used only to NAME the cause of a mismatch
 }
 
 var defaultMeta = structs.DefaultEnterpriseMetaInDefaultPartition()
@@ -406,7 +406,20 @@ func allSubjects() []*subject {
 		configListSubject("resolver", structs.ServiceResolver, pbsubscribe.Topic_ServiceResolver),
 		configSubject("defaults", structs.ServiceDefaults, pbsubscribe.Topic_ServiceDefaults, "web"),
 		serviceListSubject(),
+		// a service registered under a MIXED-CASE name; the catalog and the publisher's routing key are
+		// case-insensitive, so clients asking for either spelling must hold what the direct query answers
+		healthSubject(mixedSvc, "", false),
+		healthSubject(mixedSvc, "", true),
+		healthSubject(strings.ToLower(mixedSvc), "", false),
+		healthSubject(strings.ToLower(mixedSvc), "", true),
 	}
+}
+
+const mixedSvc = "Web2"
+
+func isMixedSubject(sj *subject) bool {
+	_, n, _ := strings.Cut(sj.Name, ":")
+	return strings.EqualFold(n, mixedSvc)
 }
 
 // diffClass names HOW two canonical renderings (sets of "id = value" lines) differ; it is part of
